@@ -9,7 +9,18 @@ Relational oracles (two executions the property says must agree) plus the dense 
  (d) elemental data: tolocal() are genuine per-cell matrices (the same reshape applied to the row and column
      index arrays shows one axis indexing test DOFs, the other trial DOFs of that cell) equal to the harness'
      own per-cell matrices, fromlocal(tolocal()) == id, inverse() inverts each, dense == sparse, dot(x) == A x;
- (e) CompositeBasis of component bases == basis of the composite element (up to the documented DOF order).
+ (e) CompositeBasis of component bases == basis of the composite element (up to the documented DOF order), in the
+     spellings CompositeBasis(*b), b0 * b1, cb.split(x); f0 @ f1 (shared DOF numbers) against the signed sum of blocks;
+ (f) asm over the PRODUCT of two lists of bases (the two sides of the interior facets) with w.idx, helpers.jump,
+     to=list, raw callables, lists against single bases == weighted sums of ordinary two-basis assemblies; Functional,
+     LinearForm and TrilinearForm over lists of bases;
+ (g) the block clause for ElementVector (any number of components) and nested splits of vector x scalar composites;
+     LinearForm.block;
+ (h) elemental data of linear forms (per-cell vectors), functionals (per-cell numbers, 0-tensor) and trilinear forms
+     (own einsum on <= 3 cells), bmat over elemental-data / 1-D entries; COOData.dot for vectors that are not float64
+     and for complex data;
+ (i) second-order (curved) and wedge meshes; tolocal(basis=fb) on subsets of boundary facets and on interior facets
+     (a facet is added to every cell that has it), asm over a partition of a facet set.
 """
 from __future__ import annotations
 
@@ -23,7 +34,9 @@ from .c01 import enumerate_ops, apply_op, as_tuple
 PID = "C19"
 RULE = ("random meshes x composite elements of 2-3 components with different nodal/edge/facet/interior layouts, vector "
         "wrappers, Vector x scalar composites x coupling integrands drawn per component pair x random coefficient vectors x "
-        "random partitions of the cells x rectangular trial/test pairs; distinct key = (component layout, operation, "
+        "random partitions of the cells / of facet sets x rectangular trial/test pairs x first-order, second-order (curved) "
+        "and wedge meshes x linear / bilinear / trilinear forms and functionals x products of basis lists with w.idx x "
+        "vector data types of COOData.dot; distinct key = (component layout, operation, "
         "mesh class); non-trivial iff the components differ in >= 1 entity count or trial != test size")
 TRACK = ["skfem.element.element_vector:ElementVector.gbasis", "skfem.element.element_composite:ElementComposite._deduce_bfun",
          "skfem.assembly.basis.abstract_basis:AbstractBasis.split_indices", "skfem.assembly.basis.abstract_basis:AbstractBasis.split_bases",
@@ -36,9 +49,15 @@ REQUIRED_MONITORS = ["component-interpolation-equals-whole", "split-indices-part
                      "form-block-equals-block", "bmat-equals-coupled", "bmat-block-offsets", "partition-sum-equals-whole",
                      "coo-add", "tolocal-index-roles", "tolocal-equals-own-local-matrices", "fromlocal-roundtrip",
                      "inverse-inverts-local", "dense-equals-sparse", "dot-equals-matvec", "compositebasis-equals-composite-element",
-                     "split-on-restricted-basis"]
+                     "split-on-restricted-basis", "asm-product-equals-weighted-sum",
+                     "linear-elemental-data", "functional-elemental-data", "trilinear-elemental-data"]
 REQUIRED_REACH = ["rectangular-local", "vector-element", "composite-3-components", "3d-composite", "facet-tolocal", "asm-list-with-dof-array-keyword",
-                  "vector-components-differ-from-dimension"]
+                  "vector-components-differ-from-dimension", "coo-dot-non-float64-vector", "coo-dot-complex-data",
+                  "asm-product-of-two-lists", "asm-raw-callable", "asm-list-functional",
+                  "vector-element-blocks", "vector-element-blocks-components-differ-from-dimension", "nested-split",
+                  "linear-elemental-data", "functional-elemental-data", "trilinear-elemental-data", "bmat-of-elemental-data",
+                  "compositebasis-mul-spelling", "compositebasis-matmul-spelling", "linear-form-block",
+                  "second-order-mesh", "wedge-mesh", "facet-tolocal:boundary-subset", "facet-tolocal:interior-subset", "facet-partition"]
 
 
 def field_parts(f):
@@ -92,6 +111,9 @@ def pick(ctx, rng, kind, k):
     # vector elements whose number of components differs from the dimension of the mesh
     odd = {"line": 2, "tri": 3, "quad": 1, "tet": 2, "hex": 2}
     recs = recs + [EL.vector(r, odd[kind]) for r in base[:2] if kind in odd]
+    if kind == "wedge":
+        w1 = EL.by_name("ElementWedge1")
+        recs = [EL.vector(w1), EL.composite(w1, w1), EL.vector(w1, 2), EL.composite(EL.vector(w1), w1)]
     rec = recs[k % len(recs)]
     mc = G.first_order(rng, kind)
     tries = 0
@@ -104,6 +126,15 @@ def pick(ctx, rng, kind, k):
         S = np.sort(rng.choice(mesh.t.shape[1], size=cap, replace=False))
         p, t = G.clean(np.asarray(mesh.p), np.asarray(mesh.t)[:, S].astype(np.int64))
         mesh = type(mesh)(p, t)
+    # second-order (possibly curved) geometry: every clause of the property is a relation between two executions
+    # on the same mesh and holds there as well
+    if k % 5 == 4 and kind in ("tri", "quad", "tet") and rec.mesh_req == "any":
+        mc = G.second_order(rng, G.MeshCase(mesh, kind, 1, dict(mc.desc), affine_cells=mc.affine_cells, straight=mc.straight,
+                                            planar_faces=mc.planar_faces))
+        mesh = mc.mesh
+        ctx.reached("second-order-mesh")
+    if kind == "wedge":
+        ctx.reached("wedge-mesh")
     return rec, mc, mesh
 
 
@@ -152,6 +183,19 @@ def split_interp(ctx, k, kind):
             ctx.close("component-interpolation-equals-whole", got[nm], r, rtol=1e-11,
                       scale=float(np.abs(r).max()) + float(np.abs(x).max()) * 1e-3,
                       mech=f"component-interp:{rec.name.split('(')[0]}", component=ci, field=nm, **tag)
+    # nested split: a vector component of a composite splits again into its scalar components
+    if hasattr(elem, "elems"):
+        for ci, (xi, bi) in enumerate(parts):
+            if type(bi.elem).__name__ != "ElementVector":
+                continue
+            wv = field_parts(as_tuple(whole)[ci])
+            for cj, (xij, bij) in enumerate(bi.split(xi)):
+                fij = field_parts(bij.interpolate(xij))
+                for nm in ("value", "grad"):
+                    ctx.close("component-interpolation-equals-whole", fij[nm], wv[nm][cj], rtol=1e-11,
+                              scale=float(np.abs(wv[nm][cj]).max()) + float(np.abs(x).max()) * 1e-3,
+                              mech="component-interp:nested-split", component=(ci, cj), field=nm, **tag)
+            ctx.reached("nested-split")
     ctx.nontrivial(str(layout_key(elem)), "split-interpolate", type(mesh).__name__)
     # the same on a basis restricted to a cell subset / on a facet basis: split must stay on that domain
     nt = mesh.t.shape[1]
@@ -180,12 +224,59 @@ def split_interp(ctx, k, kind):
     ctx.sample(dict(tag, N=int(basis.N), components=len(parts)), per_family=1)
 
 
+def vector_blocks(ctx, rng, rec, mc, mesh):
+    """The block clause for ElementVector(e, n): the form sum_ij c_ij u_i v_j + d_ij d_a u_i d_b v_j coupled over the
+    components equals, under split_indices, the n x n block matrix of scalar forms on the split_bases."""
+    import skfem
+    elem = rec.make()
+    n = elem.dim
+    gd = mesh.dim()
+    basis = skfem.CellBasis(mesh, elem)
+    c = rng.integers(1, 9, size=(n, n)) / 4.0 * rng.choice([-1.0, 1.0], size=(n, n))
+    d = rng.integers(1, 9, size=(n, n)) / 4.0
+    ia, ib = rng.integers(0, gd, size=(n, n)), rng.integers(0, gd, size=(n, n))
+
+    def coupled(u, v, w):
+        out = 0
+        for i in range(n):          # trial component
+            for j in range(n):      # test component
+                out = out + (w.x[0] + 2.0) * (c[i, j] * u[i] * v[j] + d[i, j] * u.grad[i][ia[i, j]] * v.grad[j][ib[i, j]])
+        return out
+    A = skfem.BilinearForm(coupled).assemble(basis).toarray()
+    ixs = basis.split_indices()
+    sb = basis.split_bases()
+    tag = dict(elem=rec.name, mesh=type(mesh).__name__, desc=mc.desc)
+    ok = len(ixs) == n and len(sb) == n
+    ctx.check("split-indices-partition", ok and np.array_equal(np.sort(np.concatenate(ixs)), np.arange(basis.N)),
+              mech="split-indices:Vector", sizes=[len(i) for i in ixs], N=int(basis.N), **tag)
+    if not ok:
+        return
+    scale = float(np.abs(A).max()) + 1e-300
+    blocks = [[None] * n for _ in range(n)]
+    for i in range(n):
+        for j in range(n):
+            B = skfem.BilinearForm(lambda u, v, w: (w.x[0] + 2.0) * (c[i, j] * u * v + d[i, j] * u.grad[ia[i, j]] * v.grad[ib[i, j]])
+                                   ).assemble(sb[i], sb[j])
+            blocks[j][i] = B
+            ctx.close("coupled-equals-blocks", A[np.ix_(ixs[j], ixs[i])], B.toarray(), rtol=1e-11, scale=scale,
+                      mech="coupled-block:Vector", trial=i, test=j, **tag)
+    M = skfem.utils.bmat(blocks, "csr")
+    perm = np.concatenate(ixs)
+    ctx.close("bmat-equals-coupled", M.toarray(), A[np.ix_(perm, perm)], rtol=1e-11, scale=scale, mech="bmat:Vector", **tag)
+    want = np.cumsum([len(i) for i in ixs])[:-1].tolist()
+    ctx.check("bmat-block-offsets", list(M.blocks) == want, mech="bmat-blocks-attribute", got=list(M.blocks), want=want, **tag)
+    ctx.reached("vector-element-blocks")
+    if n != gd:
+        ctx.reached("vector-element-blocks-components-differ-from-dimension")
+    ctx.nontrivial(str(layout_key(elem)) + f"x{n}", "coupled-blocks", type(mesh).__name__)
+
+
 def coupled_blocks(ctx, k, kind):
     import skfem
     rng = ctx.rng()
     rec, mc, mesh = pick(ctx, rng, kind, k)
     if rec.name.startswith("Vector("):
-        raise Skip("vector-wrapper-has-no-component-bases-with-own-fields")
+        return vector_blocks(ctx, rng, rec, mc, mesh)
     elem = rec.make()
     basis = skfem.CellBasis(mesh, elem)
     terms, ncu, ncv = make_coupling(rng, basis, basis)
@@ -229,8 +320,38 @@ def coupled_blocks(ctx, k, kind):
         for ci in range(len(fw)):
             ctx.close("compositebasis-equals-composite-element", np.array(fc[ci]), np.array(fw[ci]), rtol=1e-11,
                       scale=float(np.abs(np.array(fw[ci])).max()) + 1e-3, mech="compositebasis-interpolate", component=ci, **tag)
+        # cb.split(x): consecutive slices with the component bases
+        sp_ = cb.split(xs)
+        offs = np.concatenate([[0], np.cumsum([b.N for b in sb])])
+        ok = len(sp_) == len(sb) and all(np.array_equal(xi, xs[offs[i]:offs[i + 1]]) and bi is sb[i] for i, (xi, bi) in enumerate(sp_))
+        ctx.check("compositebasis-equals-composite-element", ok, mech="compositebasis-split", **tag)
+        if ok:
+            for ci, (xi, bi) in enumerate(sp_):
+                fi = bi.interpolate(xi)
+                ctx.close("compositebasis-equals-composite-element", np.array(fi), np.array(fc[ci]), rtol=1e-12,
+                          scale=float(np.abs(np.array(fc[ci])).max()) + 1e-3, mech="compositebasis-split-interpolate", component=ci, **tag)
+        # the operator spelling b0 * b1
+        if len(sb) == 2:
+            cb2 = sb[0] * sb[1]
+            ok = type(cb2).__name__ == "CompositeBasis" and cb2.N == cb.N and not cb2.equal_dofnum
+            ctx.check("compositebasis-equals-composite-element", ok, mech="compositebasis-mul-spelling:structure", **tag)
+            if ok:
+                Ac2 = skfem.BilinearForm(bil_from(terms, ncu)).assemble(cb2).toarray()
+                ctx.close("compositebasis-equals-composite-element", Ac2, A[np.ix_(perm, perm)], rtol=1e-11, scale=scale,
+                          mech="compositebasis-mul-spelling", **tag)
+            ctx.reached("compositebasis-mul-spelling")
     except NotImplementedError:
         ctx.drop("compositebasis-not-implemented")
+    # LinearForm.block(k) on the component basis == the rows of component k (zero fields stand in for the other
+    # components: meaningful when all components have the same fields, as for Form.block above)
+    if all(type(e).__mro__[1].__name__ == "ElementH1" for e in elem.elems):
+        linfn = lambda *a: sum(c * (a[-1].x[0] + 2.0) * apply_op(a[:-1], ov) for c, ou, ov in terms)
+        bfull = skfem.LinearForm(linfn).assemble(basis)
+        for cv in range(ncv):
+            bk = skfem.LinearForm(with_arity(linfn, ncv + 1)).block(cv).assemble(sb[cv])
+            ctx.close("form-block-equals-block", bk, bfull[ixs[cv]], rtol=1e-12, scale=float(np.abs(bfull).max()) + 1e-300,
+                      mech="linear-form-block", test=cv, **tag)
+        ctx.reached("linear-form-block")
     ctx.nontrivial(str(layout_key(elem)), "coupled-blocks", type(mesh).__name__)
 
 
@@ -285,12 +406,335 @@ def partition_sum(ctx, k, kind):
         ctx.close("partition-sum-equals-whole", S3.toarray(), Ac.toarray(), rtol=1e-11, scale=float(np.abs(Ac).max()) + 1e-300,
                   mech="asm-list-with-coefficient-vector-keyword", **tag)
         ctx.reached("asm-list-with-dof-array-keyword")
+    # a Functional over the list of bases: the integral over the whole mesh; with w.idx: the weighted sum of the parts
+    def density(w):
+        return (w.x[0] + 2.0) * w.h * (1.0 + coef(w)) ** 2
+    func = skfem.Functional(density)
+    whole = func.assemble(basis, c=xc)
+    fsum = skfem.asm(func, bases, c=xc)
+    parts_f = [func.assemble(b, c=xc) for b in bases]
+    sF = float(np.sum(np.abs(parts_f))) + 1e-300
+    ctx.close("partition-sum-equals-whole", fsum, whole, rtol=1e-11, scale=sF, mech="asm-list-functional", **tag)
+    ctx.check("partition-sum-equals-whole", np.ndim(fsum) == 0, mech="asm-list-functional-not-scalar", shape=np.shape(fsum), **tag)
+    wts = rng.integers(1, 9, size=len(bases)) / 4.0
+    fw = skfem.asm(skfem.Functional(lambda w: wts[w.idx[0]] * density(w)), bases, c=xc)
+    ctx.close("partition-sum-equals-whole", fw, float(np.dot(wts, parts_f)), rtol=1e-11, scale=sF * float(wts.max()),
+              mech="asm-list-functional-idx", **tag)
+    bw = skfem.asm(skfem.LinearForm(lambda *a: wts[a[-1].idx[0]] * lin.form(*a)), bases)
+    ctx.close("partition-sum-equals-whole", bw, sum(wt * lin.assemble(b) for wt, b in zip(wts, bases)), rtol=1e-11,
+              scale=float(np.abs(b_whole).max()) * float(wts.max()) + 1e-300, mech="asm-list-linear-idx", **tag)
+    ctx.reached("asm-list-functional")
     # COOData addition
     c1, c2 = form.elemental(bases[0]), form.elemental(bases[-1])
     ctx.close("coo-add", (c1 + c2).todefault().toarray(), (c1.todefault() + c2.todefault()).toarray(), rtol=1e-12, scale=scale,
               mech="coo-add", **tag)
     ctx.check("coo-add", (0 + c1).todefault().shape == c1.todefault().shape, mech="coo-radd")
     ctx.nontrivial(str(layout_key(elem)), "partition", type(mesh).__name__)
+
+
+def small_mesh(ctx, rng, kind, cap):
+    """A mesh of the shared zoo with at most `cap` cells (a random subset of the cells of a larger one)."""
+    mc = G.first_order(rng, kind)
+    tries = 0
+    while mc.mesh.t.shape[1] > cap and tries < 8:
+        tries += 1
+        mc = G.first_order(ctx.rng("again", tries), kind)
+    mesh = mc.mesh
+    if mesh.t.shape[1] > cap:
+        S = np.sort(rng.choice(mesh.t.shape[1], size=cap, replace=False))
+        p, t = G.clean(np.asarray(mesh.p), np.asarray(mesh.t)[:, S].astype(np.int64))
+        mesh = type(mesh)(p, t)
+    return mc, mesh
+
+
+IDX_PAIRS = {"tri": [("ElementTriP2", "ElementTriP1"), ("ElementTriP1", "ElementTriP2"), ("ElementTriP1DG", "ElementTriP1"),
+                     ("Vector(ElementTriP1)", "ElementTriP2"), ("ElementTriRT1", "ElementTriP1")],
+             "quad": [("ElementQuad2", "ElementQuad1"), ("ElementQuad1", "ElementQuad1"), ("ElementQuad1", "Vector(ElementQuad1)")],
+             "tet": [("ElementTetP2", "ElementTetP1"), ("ElementTetP1", "ElementTetP1"), ("ElementTetP1", "ElementTetN1")],
+             "hex": [("ElementHex1", "ElementHex1"), ("ElementHex1", "ElementHex0")]}
+
+
+def rec_of(name):
+    if name.startswith("Vector("):
+        return EL.vector(EL.by_name(name[len("Vector("):-1]))
+    return EL.by_name(name)
+
+
+def asm_product(ctx, k, kind):
+    """asm(form, [trial bases], [test bases]): the sum over the PRODUCT of the two lists, each term receiving its
+    position as w.idx = (index in the trial list, index in the test list).  Oracle: the sum over i, j of
+    C[i, j] * (ordinary two-basis assembly of the index-free form on (trial_i, test_j))."""
+    import skfem
+    from skfem.helpers import jump
+    rng = ctx.rng()
+    un, vn = IDX_PAIRS[kind][k % len(IDX_PAIRS[kind])]
+    ur, vr = rec_of(un), rec_of(vn)
+    mc, mesh = small_mesh(ctx, rng, kind, ctx.scale(10, 30))
+    if not np.any(np.asarray(mesh.f2t)[1] != -1):
+        raise Skip("no-interior-facets")
+    order = 2 * max(ur.make().maxdeg, vr.make().maxdeg)
+    fbu = [skfem.InteriorFacetBasis(mesh, ur.make(), side=s, intorder=order) for s in (0, 1)]
+    # the test bases share the quadrature (and facets, side) of the trial bases
+    if k % 2:
+        fbv = [b.with_element(vr.make()) for b in fbu]
+    else:
+        fbv = [skfem.InteriorFacetBasis(mesh, vr.make(), side=s, quadrature=fbu[0].quadrature) for s in (0, 1)]
+    terms, ncu, ncv = make_coupling(rng, fbu[0], fbv[0])
+    inner = bil_from(terms, ncu)
+    C = rng.integers(1, 9, size=(2, 2)) / 4.0 * rng.choice([-1.0, 1.0], size=(2, 2))
+    C[0, 1] = C[1, 0] + 0.5                         # never symmetric: idx[0] must index the trial list
+    tag = dict(trial=un, test=vn, mesh=type(mesh).__name__, desc=mc.desc, C=C.tolist())
+    plain = skfem.BilinearForm(inner)
+    P = [[plain.assemble(fbu[i], fbv[j]).toarray() for j in (0, 1)] for i in (0, 1)]
+    scale = max(float(np.abs(P[i][j]).max()) for i in (0, 1) for j in (0, 1)) * float(np.abs(C).max()) + 1e-300
+    M = "asm-product-equals-weighted-sum"
+    seen = []
+
+    def with_idx(*a):
+        w = a[-1]
+        seen.append(tuple(w.idx))
+        return C[w.idx[0], w.idx[1]] * inner(*a)
+    form = skfem.BilinearForm(with_idx)
+    got = skfem.asm(form, fbu, fbv)
+    ref = sum(C[i, j] * P[i][j] for i in (0, 1) for j in (0, 1))
+    ctx.close(M, got.toarray(), ref, rtol=1e-11, scale=scale, mech="asm-product:idx", **tag)
+    ctx.check(M, set(seen) == {(0, 0), (0, 1), (1, 0), (1, 1)}, mech="asm-product:idx-values", seen=sorted(set(seen)), **tag)
+    # to=list: the elemental data of every pair, in product order (trial index major)
+    lst = skfem.asm(form, fbu, fbv, to=list)
+    ok = len(lst) == 4
+    ctx.check(M, ok, mech="asm-product:to-list-length", n=len(lst), **tag)
+    if ok:
+        for n, (i, j) in enumerate([(0, 0), (0, 1), (1, 0), (1, 1)]):
+            ctx.close(M, lst[n].tocsr().toarray(), C[i, j] * P[i][j], rtol=1e-11, scale=scale, mech="asm-product:to-list", pair=(i, j), **tag)
+    # a list against a single basis, a single basis against a list: the single one has index 0
+    got = skfem.asm(form, fbu, fbv[1])
+    ctx.close(M, got.toarray(), sum(C[i, 0] * P[i][1] for i in (0, 1)), rtol=1e-11, scale=scale, mech="asm-product:list-x-single", **tag)
+    got = skfem.asm(form, fbu[1], fbv)
+    ctx.close(M, got.toarray(), sum(C[0, j] * P[1][j] for j in (0, 1)), rtol=1e-11, scale=scale, mech="asm-product:single-x-list", **tag)
+    # helpers.jump: every argument multiplied by (-1)^(its index)
+    c0, ou, ov = terms[0]
+
+    def jumpform(*a):
+        w = a[-1]
+        ju, jv = jump(w, apply_op(a[:ncu], ou), apply_op(a[ncu:-1], ov))
+        return c0 * (w.x[0] + 2.0) * ju * jv
+    J = skfem.asm(skfem.BilinearForm(jumpform), fbu, fbv).toarray()
+    single = skfem.BilinearForm(bil_from([terms[0]], ncu))
+    Pj = [[single.assemble(fbu[i], fbv[j]).toarray() for j in (0, 1)] for i in (0, 1)]
+    refj = sum((-1.0) ** (i + j) * Pj[i][j] for i in (0, 1) for j in (0, 1))
+    ctx.close(M, J, refj, rtol=1e-11, scale=max(float(np.abs(Pj[i][j]).max()) for i in (0, 1) for j in (0, 1)) + 1e-300,
+              mech="asm-product:jump", **tag)
+    ctx.reached("asm-product-of-two-lists")
+    # f0 @ f1: a CompositeBasis whose components share the DOF numbers (no offsets, N = N of one side); the jump
+    # form written with explicit components equals the same signed sum
+    if ncu == 1 and ncv == 1:
+        cbu, cbv = fbu[0] @ fbu[1], fbv[0] @ fbv[1]
+        ok = bool(cbu.equal_dofnum) and cbu.N == fbu[0].N and cbv.N == fbv[0].N and cbu.Nbfun == 2 * fbu[0].Nbfun
+        ctx.check("compositebasis-equals-composite-element", ok, mech="compositebasis-matmul-spelling:structure",
+                  N=int(cbu.N), want=int(fbu[0].N), **tag)
+        if ok:
+            def explicit(u0, u1, v0, v1, w):
+                return c0 * (w.x[0] + 2.0) * (apply_op(u0, ou) - apply_op(u1, ou)) * (apply_op(v0, ov) - apply_op(v1, ov))
+            Je = skfem.BilinearForm(explicit).assemble(cbu, cbv).toarray()
+            ctx.close("compositebasis-equals-composite-element", Je, refj, rtol=1e-11,
+                      scale=max(float(np.abs(Pj[i][j]).max()) for i in (0, 1) for j in (0, 1)) + 1e-300,
+                      mech="compositebasis-matmul-spelling", **tag)
+        ctx.reached("compositebasis-matmul-spelling")
+    # raw callables are wrapped by their number of positional parameters
+    if ncu == 1 and ncv == 1:
+        raw = skfem.asm(lambda u, v, w: C[w.idx[0], w.idx[1]] * inner(u, v, w), fbu, fbv)
+        ctx.close(M, raw.toarray(), ref, rtol=1e-11, scale=scale, mech="asm-raw-callable:bilinear", **tag)
+        d = np.array([1.5, -0.75])
+        lv = skfem.asm(lambda v, w: d[w.idx[0]] * (w.x[0] + 2.0) * apply_op(v, ov), fbv)
+        lref = sum(d[j] * skfem.LinearForm(lambda v, w: (w.x[0] + 2.0) * apply_op(v, ov)).assemble(fbv[j]) for j in (0, 1))
+        ctx.close(M, lv, lref, rtol=1e-11, scale=float(np.abs(lref).max()) + 1e-300, mech="asm-raw-callable:linear", **tag)
+        fv = skfem.asm(lambda w: d[w.idx[0]] * (w.x[0] + 2.0) * w.n[0] ** 2, fbu)
+        fref = sum(d[i] * skfem.Functional(lambda w: (w.x[0] + 2.0) * w.n[0] ** 2).assemble(fbu[i]) for i in (0, 1))
+        ctx.close(M, fv, fref, rtol=1e-11, scale=abs(float(fref)) + 1e-300, mech="asm-raw-callable:functional", **tag)
+        ctx.reached("asm-raw-callable")
+    ctx.nontrivial((un, vn), "asm-product", type(mesh).__name__)
+    ctx.sample(dict(tag, facets=int(fbu[0].nelems)), per_family=1)
+
+
+P1_OF = {"line": "ElementLineP1", "tri": "ElementTriP1", "quad": "ElementQuad1", "tet": "ElementTetP1", "hex": "ElementHex1",
+         "wedge": "ElementWedge1"}
+
+
+def other_elemental(ctx, rng, skfem, kind, mesh, ub, vb, terms, form, coo, tag):
+    """Elemental data of linear forms, functionals and trilinear forms, and bmat over elemental-data entries."""
+    import scipy.sparse as sp
+    nt = mesh.t.shape[1]
+    wx = np.array(vb.default_parameters()["x"])[0] + 2.0
+    # ---- linear form: per-cell vectors
+    lin = skfem.LinearForm(lambda *a: sum(c * (a[-1].x[0] + 2.0) * apply_op(a[:-1], ov) for c, ou, ov in terms))
+    lcoo = lin.elemental(vb)
+    own = np.zeros((nt, vb.Nbfun))
+    for i in range(vb.Nbfun):
+        own[:, i] = (sum(c * wx * apply_op(vb.basis[i], ov) for c, ou, ov in terms) * vb.dx).sum(axis=1)
+    edv = np.asarray(vb.element_dofs)
+    bown = np.zeros(vb.N)
+    np.add.at(bown, edv.T, own)
+    sL = float(np.abs(own).max()) + 1e-300
+    sb = float(np.abs(own).sum()) + 1e-300
+    M = "linear-elemental-data"
+    loc = lcoo.tolocal()
+    ok = tuple(lcoo.shape) == (vb.N,) and loc.shape == (nt, vb.Nbfun)
+    ctx.check(M, ok, mech="linear-elemental:shapes", shape=tuple(lcoo.shape), local=loc.shape, **tag)
+    if ok:
+        R = np.moveaxis(lcoo.indices[0].reshape(tuple(lcoo.local_shape) + (-1,), order="C"), -1, 0)
+        ctx.check(M, np.array_equal(R, edv.T), mech="linear-elemental:tolocal-index-roles", **tag)
+        ctx.close(M, loc, own, rtol=1e-11, scale=sL, mech="linear-elemental:tolocal-values", **tag)
+        back = lcoo.fromlocal(loc)
+        ctx.check(M, np.array_equal(back.data, lcoo.data) and np.array_equal(back.indices, lcoo.indices),
+                  mech="linear-elemental:fromlocal", **tag)
+        ctx.close(M, lcoo.toarray(), bown, rtol=1e-12, scale=sb, mech="linear-elemental:toarray", **tag)
+        ctx.close(M, lcoo.todefault(), lin.assemble(vb), rtol=1e-13, scale=sb, mech="linear-elemental:todefault-vs-assemble", **tag)
+        half = np.arange(nt // 2, dtype=np.int32)
+        if 0 < half.size:
+            l1 = lin.elemental(vb.with_elements(half))
+            two = l1 + lcoo
+            ref = bown.copy()
+            np.add.at(ref, edv.T[half], own[half])
+            ctx.close(M, two.todefault(), ref, rtol=1e-12, scale=sb, mech="linear-elemental:add", **tag)
+    ctx.reached("linear-elemental-data")
+    # ---- functional: per-cell numbers, the 0-tensor elemental data
+    M = "functional-elemental-data"
+    func = skfem.Functional(lambda w: (w.x[0] + 2.0) * w.h)
+    cellwise = func.elemental(ub)
+    ownf = (np.array(ub.default_parameters()["x"])[0] + 2.0) * np.array(ub.default_parameters()["h"])
+    ownf = (ownf * ub.dx).sum(axis=1)
+    ctx.close(M, cellwise, ownf, rtol=1e-12, scale=float(np.abs(ownf).max()) + 1e-300, mech="functional:elemental", **tag)
+    total = float(ownf.sum())
+    fc = func.coo_data(ub)
+    ctx.check(M, tuple(fc.shape) == () and np.ndim(fc.todefault()) == 0, mech="functional:coo-shape", shape=tuple(fc.shape), **tag)
+    ctx.close(M, fc.todefault(), total, rtol=1e-12, scale=float(np.abs(ownf).sum()) + 1e-300, mech="functional:todefault", **tag)
+    ctx.close(M, func.assemble(ub), total, rtol=1e-12, scale=float(np.abs(ownf).sum()) + 1e-300, mech="functional:assemble", **tag)
+    ctx.close(M, (fc + fc + fc).todefault(), 3 * total, rtol=1e-12, scale=float(np.abs(ownf).sum()) + 1e-300, mech="functional:add", **tag)
+    ctx.reached("functional-elemental-data")
+    # ---- trilinear form on <= 3 cells of the P1-type element of the cell kind, against an own einsum
+    M = "trilinear-elemental-data"
+    cells = np.sort(rng.choice(nt, size=min(3, nt), replace=False)).astype(np.int32)
+    tb = skfem.CellBasis(mesh, EL.by_name(P1_OF[kind]).make(), elements=cells)
+    a = int(rng.integers(0, mesh.dim()))
+    tri = skfem.TrilinearForm(lambda u, v, z, w: (w.x[0] + 2.0) * u * v.grad[a] * (z + 0.5 * z.grad[0]))
+    tcoo = tri.elemental(tb)
+    Nb, N = tb.Nbfun, tb.N
+    PH = np.array([np.array(tb.basis[i][0]) for i in range(Nb)])                    # (Nb, nc, nq)
+    GR = np.array([np.asarray(tb.basis[i][0].grad) for i in range(Nb)])              # (Nb, dim, nc, nq)
+    cf = (np.array(tb.default_parameters()["x"])[0] + 2.0) * tb.dx
+    # L[c, k(u), j(v), i(z)]
+    L = np.einsum("cq,kcq,jcq,icq->ckji", cf, PH, GR[:, a], PH + 0.5 * GR[:, 0])
+    ed = np.asarray(tb.element_dofs)                                               # (Nb, nc)
+    T = np.zeros((N, N, N))
+    for k in range(Nb):
+        for j in range(Nb):
+            for i in range(Nb):
+                np.add.at(T, (ed[i], ed[j], ed[k]), L[:, k, j, i])                  # T[z, v, u]
+    sT = float(np.abs(L).max()) + 1e-300
+    tl = tcoo.tolocal()
+    ok = tuple(tcoo.shape) == (N, N, N) and tl.shape == (len(cells), Nb, Nb, Nb)
+    ctx.check(M, ok, mech="trilinear:shapes", shape=tuple(tcoo.shape), local=tl.shape, **tag)
+    if ok:
+        I = [np.moveaxis(tcoo.indices[r].reshape(tuple(tcoo.local_shape) + (-1,), order="C"), -1, 0) for r in range(3)]
+        # every local tensor lives on the DOFs of its own cell; scattered by its own indices it is the global tensor
+        own_cell = all(np.isin(I[r][c], ed[:, c]).all() for r in range(3) for c in range(len(cells)))
+        ctx.check(M, own_cell, mech="trilinear:tolocal-not-per-cell", **tag)
+        T2 = np.zeros((N, N, N))
+        np.add.at(T2, (I[0], I[1], I[2]), tl)
+        ctx.close(M, T2, T, rtol=1e-11, scale=sT, mech="trilinear:tolocal-values", **tag)
+        # the local tensors are one of the axis arrangements of the own ones (which one is not promised)
+        import itertools
+        arr = [pm for pm in itertools.permutations((1, 2, 3)) if np.abs(np.transpose(L, (0,) + pm) - tl).max() <= 1e-11 * sT]
+        ctx.check(M, len(arr) >= 1, mech="trilinear:tolocal-is-no-arrangement-of-the-cell-tensors", **tag)
+        back = tcoo.fromlocal(tl)
+        ctx.check(M, np.array_equal(back.data, tcoo.data), mech="trilinear:fromlocal", **tag)
+        ctx.close(M, tcoo.toarray(), T, rtol=1e-11, scale=sT, mech="trilinear:toarray", **tag)
+        out = tri.assemble(tb)
+        ctx.close(M, np.asarray(out.toarray() if hasattr(out, "toarray") else out), T, rtol=1e-11, scale=sT,
+                  mech="trilinear:assemble", **tag)
+        # over a list of bases with w.idx: the weighted sum of the parts
+        if len(cells) >= 2:
+            tbs = [skfem.CellBasis(mesh, EL.by_name(P1_OF[kind]).make(), elements=cells[:1]),
+                   skfem.CellBasis(mesh, EL.by_name(P1_OF[kind]).make(), elements=cells[1:])]
+            d = np.array([1.5, -0.5])
+            tw = skfem.asm(skfem.TrilinearForm(lambda u, v, z, w: d[w.idx[0]] * tri.form(u, v, z, w)), tbs)
+            Tw = np.zeros((N, N, N))
+            for k in range(Nb):
+                for j in range(Nb):
+                    for i in range(Nb):
+                        np.add.at(Tw, (ed[i], ed[j], ed[k]), L[:, k, j, i] * np.where(np.arange(len(cells)) == 0, d[0], d[1]))
+            ctx.close(M, tw.toarray(), Tw, rtol=1e-11, scale=sT * 1.5, mech="trilinear:asm-list-idx", **tag)
+    ctx.reached("trilinear-elemental-data")
+    # ---- bmat over elemental-data entries (COOData of bilinear and of linear forms, None)
+    M = "bmat-equals-coupled"
+    A = coo.tocsr()
+    ncv = len(vb.basis[0])
+    # the transposed form (trial <-> test), shape (ub.N, vb.N)
+    At = skfem.BilinearForm(lambda *a: form.form(*a[ncv:-1], *a[:ncv], a[-1])).elemental(vb, ub)
+    lu = skfem.LinearForm(lambda *a: (a[-1].x[0] + 2.0) * apply_op(a[:-1], terms[0][1])).elemental(ub)   # 1-D, length ub.N
+    try:
+        B1 = skfem.utils.bmat([[coo, None], [None, At]], "csr")
+        ref = sp.bmat([[A, None], [None, A.T]], "csr")
+        ctx.close(M, B1.toarray(), ref.toarray(), rtol=1e-12, scale=float(np.abs(ref).max()) + 1e-300, mech="bmat-of-elemental-data", **tag)
+        ctx.check("bmat-block-offsets", list(B1.blocks) == [A.shape[1]], mech="bmat-of-elemental-data:blocks", got=list(B1.blocks), **tag)
+        # a 1-D block is one row: [[A (vN x uN), None], [l_u (uN,), l_v (vN,)]]
+        B2 = skfem.utils.bmat([[coo, None], [lu, lcoo]], "csr")
+        ref = sp.bmat([[A, None], [sp.csr_matrix(lu.toarray()[None, :]), sp.csr_matrix(bown[None, :])]], "csr")
+        ctx.close(M, B2.toarray(), ref.toarray(), rtol=1e-12, scale=float(np.abs(ref).max()) + 1e-300, mech="bmat-with-1d-blocks", **tag)
+        ctx.check("bmat-block-offsets", list(B2.blocks) == [ub.N], mech="bmat-with-1d-blocks:blocks", got=list(B2.blocks), **tag)
+        # the first column holds only the 1-D block: its width is the length of the vector
+        B3 = skfem.utils.bmat([[None, coo], [lcoo, lu]], "csr")
+        ctx.check("bmat-block-offsets", list(B3.blocks) == [vb.N] and B3.shape == (vb.N + 1, vb.N + ub.N),
+                  mech="bmat-with-1d-blocks:blocks", got=list(B3.blocks), shape=B3.shape, **tag)
+        ctx.reached("bmat-of-elemental-data")
+    except (ValueError, TypeError) as e:
+        ctx.check(M, False, mech="bmat-of-elemental-data:raises", error=repr(e)[:200], **tag)
+
+
+def facet_subsets(ctx, rng, skfem, mesh, ur, fb_all, tag):
+    """tolocal(basis=fb) for bases on a subset of the boundary facets and on interior facets, and asm over a
+    partition of a facet set.  The library adds the matrix of a facet to *every* cell that has this facet (an
+    interior facet to both neighbours): the own sum runs over the facets of each cell."""
+    fform = skfem.BilinearForm(lambda u, v, w: (w.x[0] + 2.0) * sum_values(u, v))
+    t2f = np.asarray(mesh.t2f)
+    nt = mesh.t.shape[1]
+    bnd = np.asarray(fb_all.find)
+    interior = np.nonzero(np.asarray(mesh.f2t)[1] != -1)[0].astype(np.int32)
+    sets = [("boundary-subset", skfem.FacetBasis, np.sort(rng.choice(bnd, size=max(1, bnd.size // 2), replace=False)).astype(np.int32))]
+    if interior.size:
+        sets.append(("interior-subset", skfem.InteriorFacetBasis,
+                     np.sort(rng.choice(interior, size=max(1, (2 * interior.size) // 3), replace=False)).astype(np.int32)))
+    for name, cls, F in sets:
+        kw = {"side": int(rng.integers(2))} if cls is skfem.InteriorFacetBasis else {}
+        fb = cls(mesh, ur.make(), facets=F, **kw)
+        fcoo = fform.elemental(fb)
+        floc = fcoo.tolocal()
+        ok = floc.shape[0] == F.size and np.array_equal(np.asarray(fb.find), F)
+        ctx.check("tolocal-equals-own-local-matrices", ok, mech="tolocal-facet-subset:shape", variant=name, shape=floc.shape, nf=int(F.size), **tag)
+        if not ok:
+            continue
+        pos = {int(f): i for i, f in enumerate(F)}
+        own = np.zeros((nt,) + floc.shape[1:])
+        for c in range(nt):
+            for l in range(t2f.shape[0]):
+                i = pos.get(int(t2f[l, c]))
+                if i is not None:
+                    own[c] += floc[i]
+        el = fcoo.tolocal(basis=fb)
+        ctx.close("tolocal-equals-own-local-matrices", el, own, rtol=1e-12, scale=float(np.abs(own).max()) + 1e-300,
+                  mech="tolocal-facet-sum:" + name, **tag)
+        ctx.reached("facet-tolocal:" + name)
+        # a partition of the facet set into 2-3 bases: asm over the list == the whole set
+        if F.size >= 2:
+            lab = rng.integers(0, 3, size=F.size)
+            lab[0], lab[1] = 0, 1
+            parts = [F[lab == i] for i in range(3) if np.any(lab == i)]
+            bases = [cls(mesh, ur.make(), facets=P, **kw) for P in parts]
+            whole = fform.assemble(fb).toarray()
+            got = skfem.asm(fform, bases).toarray()
+            ctx.close("partition-sum-equals-whole", got, whole, rtol=1e-12, scale=float(np.abs(whole).max()) + 1e-300,
+                      mech="asm-list-facet-partition:" + name, parts=[int(P.size) for P in parts], **tag)
+            ctx.reached("facet-partition")
 
 
 def local_matrices(ctx, k, kind):
@@ -302,7 +746,8 @@ def local_matrices(ctx, k, kind):
                      ("ElementTriRT1", "ElementTriP0"), ("ElementTriP2", "ElementTriP2")],
              "quad": [("ElementQuad2", "ElementQuad1"), ("ElementQuad1", "ElementQuad1"), ("ElementQuad1DG", "ElementQuad1DG")],
              "tet": [("ElementTetP2", "ElementTetP1"), ("ElementTetP1", "ElementTetP1"), ("ElementTetN1", "ElementTetRT1")],
-             "hex": [("ElementHex1", "ElementHex0"), ("ElementHex1", "ElementHex1")]}[kind]
+             "hex": [("ElementHex1", "ElementHex0"), ("ElementHex1", "ElementHex1")],
+             "wedge": [("ElementWedge1", "ElementWedge1")]}[kind]
     un, vn = pairs[k % len(pairs)]
     mc = G.first_order(rng, kind)
     tries = 0
@@ -371,6 +816,7 @@ def local_matrices(ctx, k, kind):
         ref = A @ x
         ref[D] = x[D]
         ctx.close("dot-equals-matvec", z, ref, rtol=1e-11, scale=float(np.abs(ref).max()) + 1e-300, mech="coo-dot-D", **tag)
+        dot_dtypes(ctx, rng, skfem, form, ub, coo, A, D, tag)
         # local mass matrices are invertible: inverse() inverts each
         mcoo = skfem.BilinearForm(lambda u, v, w: sum_values(u, v)).elemental(ub)
         try:
@@ -392,8 +838,50 @@ def local_matrices(ctx, k, kind):
         ctx.close("tolocal-equals-own-local-matrices", el, own, rtol=1e-12, scale=float(np.abs(own).max()) + 1e-300,
                   mech="tolocal-facet-sum", **tag)
         ctx.reached("facet-tolocal")
+        facet_subsets(ctx, rng, skfem, mesh, ur, fb, tag)
+    other_elemental(ctx, rng, skfem, kind, mesh, ub, vb, terms, form, coo, tag)
     ctx.nontrivial((un, vn), "local-matrices", type(mesh).__name__)
     ctx.sample(dict(tag, local_shape=list(coo.local_shape), roles=roles), per_family=1)
+
+
+def dot_dtypes(ctx, rng, skfem, form, ub, coo, A, D, tag):
+    """COOData.dot(x) == A x for vectors that are not float64 and for complex elemental data.  Oracle: the dense
+    assembled matrix times the vector in float64 / complex128 arithmetic.  A float32 vector promises no more than
+    single precision (rtol 1e-6)."""
+    N = ub.N
+    Ad = A.toarray()
+    rowsum = float(np.abs(Ad).sum(axis=1).max())
+    vectors = [("int64", rng.integers(-4, 5, size=N).astype(np.int64), 1e-11),
+               ("float32", rng.standard_normal(N).astype(np.float32), 1e-6),
+               ("complex128", rng.standard_normal(N) + 1j * rng.standard_normal(N), 1e-11),
+               ("int32-readonly", rng.integers(-4, 5, size=N).astype(np.int32), 1e-11)]
+    vectors[-1][1].setflags(write=False)
+    cc = complex(int(rng.integers(1, 5)), int(rng.integers(1, 5)) * int(rng.choice([-1, 1]))) / 2
+    cform = skfem.BilinearForm(lambda *a: cc * form.form(*a), dtype=np.complex128)
+    ccoo = cform.elemental(ub)
+    Acd = cc * Ad
+    # the complex elemental data themselves (complex assembly is trusted only after this comparison)
+    ctx.close("dense-equals-sparse", ccoo.tocsr().toarray(), Acd, rtol=1e-12, scale=abs(cc) * float(np.abs(Ad).max()) + 1e-300,
+              mech="complex-elemental-data", **tag)
+    cases = [("real-data", coo, Ad, nm, xv, rt) for nm, xv, rt in vectors]
+    cases += [("complex-data", ccoo, Acd, nm, xv, rt) for nm, xv, rt in
+              [("float64", rng.standard_normal(N), 1e-11)] + vectors[:3]]
+    for dname, c, M, xname, xv, rt in cases:
+        wide = np.complex128 if (np.iscomplexobj(xv) or np.iscomplexobj(M)) else np.float64
+        xw = np.asarray(xv, dtype=wide)
+        scale = rowsum * abs(cc if dname == "complex-data" else 1.0) * float(np.abs(xw).max()) + 1e-300
+        for Dset in (None, D):
+            ref = M.astype(wide) @ xw
+            if Dset is not None:
+                ref[Dset] = xw[Dset]
+            mech = f"coo-dot-dtype:{dname}:{xname}" + ("" if Dset is None else ":D")
+            try:
+                got = c.dot(xv) if Dset is None else c.dot(xv, D=Dset)
+            except (TypeError, ValueError) as e:    # e.g. a float product accumulated into an integer array
+                ctx.check("dot-equals-matvec", False, mech=mech, error=repr(e)[:200], **tag)
+                continue
+            ctx.close("dot-equals-matvec", got, ref, rtol=rt, scale=scale, mech=mech, got_dtype=str(np.asarray(got).dtype), **tag)
+        ctx.reached("coo-dot-complex-data" if dname == "complex-data" else "coo-dot-non-float64-vector")
 
 
 def sum_values(u, v):
@@ -433,3 +921,7 @@ for kd, q, th in (("line", 6, 90), ("tri", 18, 450), ("quad", 12, 300), ("tet", 
     FAMILIES.append(Family("blocks-" + kd, fam(coupled_blocks, kd), q, th))
     FAMILIES.append(Family("partition-" + kd, fam(partition_sum, kd), max(3, q // 2), th // 2))
     FAMILIES.append(Family("local-" + kd, fam(local_matrices, kd), q, th))
+FAMILIES += [Family("split-wedge", fam(split_interp, "wedge"), 4, 48), Family("blocks-wedge", fam(coupled_blocks, "wedge"), 4, 48),
+             Family("partition-wedge", fam(partition_sum, "wedge"), 2, 24), Family("local-wedge", fam(local_matrices, "wedge"), 1, 12)]
+for kd, q, th in (("tri", 5, 100), ("quad", 3, 60), ("tet", 3, 60), ("hex", 2, 40)):
+    FAMILIES.append(Family("idx-" + kd, fam(asm_product, kd), q, th))
